@@ -29,7 +29,7 @@ def one(mid):
     prop = meta["property"]
     wt = "/tmp/wt_regress_%s" % mid
     sh("git -C /repo worktree remove --force %s" % wt)
-    r = sh("git -C /repo worktree add -q --detach %s HEAD" % wt)
+    r = sh("git -C /repo worktree add -q --detach %s %s" % (wt, meta.get("base", "HEAD")))
     out = {"id": mid, "property": prop, "ran": []}
     try:
         r = sh("git -C %s apply %s" % (wt, os.path.join(d, "patch.diff")))
